@@ -117,8 +117,8 @@ def theorems_of(module_file):
         if m: ns.append(m.group(1)); continue
         m = re.match(r'\s*end\s+(\S+)', line)
         if m and ns and ns[-1] == m.group(1): ns.pop(); continue
-        m = re.match(r'\s*(?:@\[[^\]]*\]\s*)?(?:private\s+|protected\s+)?theorem\s+(\S+)', line)
-        if m: names.append('.'.join(ns + [m.group(1)]))
+        m = re.match(r'\s*(?:@\[[^\]]*\]\s*)?(private\s+|protected\s+)?theorem\s+(\S+)', line)
+        if m and not (m.group(1) or '').startswith('private'): names.append('.'.join(ns + [m.group(2)]))
     return names
 
 
@@ -126,19 +126,25 @@ ALLOWED_AXIOMS = {'propext', 'Classical.choice', 'Quot.sound'}
 
 
 def print_axioms(module, names):
-    """returns {theorem: [axioms]} using `#print axioms`"""
+    """returns ({theorem: [axioms]}, raw output) using `#print axioms`; retried once if the tool itself failed
+    (e.g. killed under memory pressure) so that a crashed helper is not mistaken for a missing theorem"""
     if not names: return {}, ''
     tmp = os.path.join(BUILD, 'axioms_%s.lean' % module.replace('.', '_'))
     with open(tmp, 'w') as f:
         f.write('import %s\n' % module)
         for n in names: f.write('#print axioms %s\n' % n)
-    r = run(['lake', 'env', 'lean', tmp], cwd=LEAN)
-    res = {}
-    out = r.stdout
-    for m in re.finditer(r"'([^']+)' depends on axioms: \[([^\]]*)\]", out, re.S):
-        res[m.group(1)] = [a.strip() for a in m.group(2).replace('\n', ' ').split(',') if a.strip()]
-    for m in re.finditer(r"'([^']+)' does not depend on any axioms", out):
-        res[m.group(1)] = []
+    res, out = {}, ''
+    for attempt in range(3):
+        r = run(['lake', 'env', 'lean', tmp], cwd=LEAN)
+        out = r.stdout
+        res = {}
+        # names may contain primes: match up to the LAST quote before " depends"/" does not depend"
+        for m in re.finditer(r"^'(.+)' depends on axioms: \[([^\]]*)\]", out, re.M):
+            res[m.group(1)] = [a.strip() for a in m.group(2).replace('\n', ' ').split(',') if a.strip()]
+        for m in re.finditer(r"^'(.+)' does not depend on any axioms", out, re.M):
+            res[m.group(1)] = []
+        if all(n in res for n in names): break
+        time.sleep(5)
     return res, out
 
 
